@@ -90,6 +90,9 @@ func ParseWriteMultipleCoilsRequestTCP(data []byte) (*WriteMultipleCoilsRequestT
 	if err != nil {
 		return nil, err
 	}
+	if len(data) < 13 {
+		return nil, newTCPRequestTooShortError(header, data, FunctionWriteMultipleCoils)
+	}
 	unitID := data[6]
 	if data[7] != FunctionWriteMultipleCoils {
 		tmpErr := NewErrorParseTCP(ErrIllegalFunction, "received function code in packet is not 0x0f")
